@@ -142,3 +142,38 @@ var recoveryMessage = func() string {
 	}
 	return "?"
 }()
+
+// endsForeignNil walks the Unwrap chain itself (not through errors.As): the model has no type for typed nils of foreign
+// types, so walks that end in one are left out of the `asf` comparison on both sides.
+func endsForeignNil(v error) (res bool) {
+	defer func() {
+		if r := recover(); r != nil {
+			res = false
+		}
+	}()
+	for i := 0; v != nil && i < 100000; i++ {
+		if isForeignNil(v) {
+			return true
+		}
+		if e, ok := v.(*errs.Error); ok && e == nil {
+			return false
+		}
+		v = errors.Unwrap(v)
+	}
+	return false
+}
+
+// asForeign runs errors.As(v, &target) with a target of the dynamic type of sample.
+func asForeign(v, sample error) (found error, out string) {
+	defer func() {
+		if r := recover(); r != nil {
+			found, out = nil, "panic"
+		}
+	}()
+	tp := reflect.New(reflect.TypeOf(sample))
+	if errors.As(v, tp.Interface()) {
+		f, _ := tp.Elem().Interface().(error)
+		return f, "1"
+	}
+	return nil, "0"
+}
